@@ -13,7 +13,7 @@ def gen(name, family, opset, wq=2, wt=3, **kw):
     return g
 
 
-ACC_OPS = ["get_by_index", "get_by_name", "get_by_keypath", "array_length", "object_keys", "object_each",
+ACC_OPS = ["value_api", "get_by_index", "get_by_name", "get_by_keypath", "array_length", "object_keys", "object_each",
            "array_values", "type_of", "casts", "exists_keys", "traverse"]
 EDIT_OPS = ["delete_by_name", "delete_by_index", "delete_by_keypath", "strip_nulls", "object_delete", "object_pick",
             "array_insert", "object_insert"]
@@ -23,8 +23,8 @@ RN_ASSUMPTION = ("decimal<->binary64: a float lexeme's value is taken from a hin
 
 PLANS = {
     "C01": {
-        "drive": [{"kind": "codec", "count": {"quick": 4500, "thorough": 60000}}],
-        "gen": [gen("codec", "codec", ["roundtrip", "to_vec"]),
+        "drive": [{"kind": "codec", "count": {"quick": 4500, "thorough": 60000}}, {"kind": "rand", "count": {"quick": 300, "thorough": 3000}}],
+        "gen": [gen("codec", "codec", ["roundtrip", "to_vec", "from_conv"]),
                 gen("num", "num", ["roundtrip"])],
         "bounds": "all documents of depth<=1 width<=W over 8 atoms, depth 2 width 2 over 8 representative containers, 28 wide atoms; W=2 quick, 3 thorough",
     },
@@ -63,7 +63,7 @@ PLANS = {
     "C04": {
         "drive": [{"kind": "pairs:compare", "count": {"quick": 4500, "thorough": 60000}}, {"kind": "pairs_repr:compare", "count": {"quick": 1200, "thorough": 12000}}],
         "gen": [{"name": "laws", "module": "Laws", "constants": {"Family": '"docs"', "Stride": "1"}, "invariants": ["LawInv"], "tiers": ("thorough",), "timeout": 3000},
-                gen("cmp", "pairs", ["compare"]), gen("cmp2", "pairs2", ["compare"])],
+                gen("cmp", "pairs", ["compare", "value_api"]), gen("cmp2", "pairs2", ["compare"])],
         "bounds": "all ordered pairs of the 70-document pair universe (number encodings of equal value, 2^53 neighbours, prefixes, length-only and deep differences)",
     },
     "C07": {
